@@ -1,7 +1,13 @@
 (* C18 — heuristic scores never enter the range reserved for decided games.
-   Only statements, `exact`, and Print Assumptions live here. *)
+   Only statements, `exact`, and Print Assumptions live here.  Proofs: EvalFacts1..5.v, ThreatsFacts1.v;
+   model: Eval.v (transcription of ai/evaluate.go), definitions of the statements: EvalSpec.v, EvalInst.v.
+
+   shape_ok p  = p is a value of the Go type: 3 <= size <= 8, len(Height) = size*size, uint8 heights and stone reserves,
+                 uint64 bitboards.  No well-formedness (disjoint colours, heights matching bitboards, ...) is assumed.
+   bound w     = closed-form sum of |weight| x maximal feature count (EvalSpec.v).
+   gen_*       = constants regenerated from /repo on every run (coq/Generated/Consts.v). *)
 From Coq Require Import NArith ZArith List Bool.
-Require Import Board Move GameOver Eval EvalSpec EvalInst.
+Require Import Board Move GameOver Eval EvalSpec EvalInst EvalFacts4 EvalFacts5.
 Require Import Generated.Consts.
 Import ListNotations.
 
@@ -10,3 +16,77 @@ Theorem C18_consts_current : gen_WinBase = WinBase /\ gen_ForcedWin = ForcedWin 
   gen_WinBase = ((gen_WinThreshold + gen_MaxEval) / 2)%Z.
 Proof. exact eval_consts_current. Qed.
 Print Assumptions C18_consts_current.
+
+(* For EVERY weight vector and every position value with the game not over, the evaluation is bounded by bound w. *)
+Theorem C18_eval_bound : forall w p c v, shape_ok p -> game_over p = Some (false, c) -> evaluate w p = Ok v -> (Z.abs v <= bound w)%Z.
+Proof. exact eval_bound. Qed.
+Print Assumptions C18_eval_bound.
+
+(* The bound of every built-in weight set is below the win threshold (recomputed from the regenerated weights). *)
+Theorem C18_builtin_in_range : Forall (fun w => (bound w < gen_WinThreshold)%Z) gen_DefaultWeights.
+Proof. exact builtin_in_range. Qed.
+Print Assumptions C18_builtin_in_range.
+
+(* Hence: ai.MakeEvaluator(size, nil) on an unfinished game stays strictly inside the undecided range. *)
+Theorem C18_heuristic_in_range : forall p c v, shape_ok p -> game_over p = Some (false, c) -> eval_default p = Ok v ->
+  (Z.abs v < gen_WinThreshold)%Z.
+Proof. exact heuristic_in_range. Qed.
+Print Assumptions C18_heuristic_in_range.
+
+(* A finished game evaluates to 0 for a draw and otherwise to +-v, term_lo w M <= v <= term_hi w M, positive iff the
+   winner is the side to move — for every weight vector and every ply bound M. *)
+Theorem C18_terminal_value : forall w p winner M, shape_ok p -> game_over p = Some (true, winner) -> (0 <= move p <= M)%Z ->
+  match winner with
+  | GNone => evaluate w p = Ok 0%Z
+  | _ => exists v, (term_lo w M <= v <= term_hi w M)%Z /\ evaluate w p = Ok (if mover_wins p winner then v else - v)%Z
+  end.
+Proof. exact terminal_value. Qed.
+Print Assumptions C18_terminal_value.
+
+(* With the built-in weights and ply numbers up to max_terminal_ply = 2 684 354 the value of a finished game is 0 for a draw
+   and lies beyond the threshold (and within MaxEval) with the sign of the winner relative to the side to move. *)
+Theorem C18_terminal_outside : forall w, In w gen_DefaultWeights -> forall p winner, shape_ok p -> game_over p = Some (true, winner) ->
+  (0 <= move p <= max_terminal_ply)%Z ->
+  match winner with
+  | GNone => evaluate w p = Ok 0%Z
+  | _ => exists v, evaluate w p = Ok v /\ (gen_WinThreshold < Z.abs v <= gen_MaxEval)%Z /\ ((0 < v)%Z <-> mover_wins p winner = true)
+  end.
+Proof. exact terminal_outside. Qed.
+Print Assumptions C18_terminal_outside.
+
+(* The ply bound is the real limit of the margin: with one more ply the guaranteed lower bound of a won game's value is
+   no longer above the threshold (Terminal_Plies = -100 per ply against WinBase - WinThreshold = 2^28). *)
+Theorem C18_max_terminal_ply_sharp : Forall (fun w => (term_lo w (max_terminal_ply + 1) <= gen_WinThreshold)%Z) gen_DefaultWeights.
+Proof. exact max_terminal_ply_sharp. Qed.
+Print Assumptions C18_max_terminal_ply_sharp.
+
+(* ai.EvaluateWinner: 0 on unfinished games and draws, +-WinBase (beyond the threshold) with the winner's sign otherwise. *)
+Theorem C18_winner_eval_outside : forall p winner, game_over p = Some (true, winner) ->
+  match winner with
+  | GNone => eval_winner p = Ok 0%Z
+  | _ => exists v, eval_winner p = Ok v /\ (gen_WinThreshold < Z.abs v <= gen_MaxEval)%Z /\ ((0 < v)%Z <-> mover_wins p winner = true)
+  end.
+Proof. exact winner_eval_outside. Qed.
+Print Assumptions C18_winner_eval_outside.
+Theorem C18_winner_eval_unfinished : forall p c, game_over p = Some (false, c) -> eval_winner p = Ok 0%Z.
+Proof. exact winner_eval_unfinished. Qed.
+Print Assumptions C18_winner_eval_unfinished.
+
+(* Every value of the built-in evaluator lies in the root window [-MaxEval, MaxEval] (used by C04/C05: the window is never met). *)
+Theorem C18_all_in_root_window : forall p v, shape_ok p -> (0 <= move p <= max_terminal_ply)%Z -> eval_default p = Ok v ->
+  (Z.abs v <= gen_MaxEval)%Z.
+Proof. exact all_in_root_window. Qed.
+Print Assumptions C18_all_in_root_window.
+
+(* Non-vacuity: a position value satisfying the hypotheses of the unfinished / finished theorems, with its evaluation. *)
+Theorem C18_nonvacuous_unfinished : shape_ok ex_start5 /\ game_over ex_start5 = Some (false, GNone) /\ eval_default ex_start5 = Ok 250%Z.
+Proof. exact eval_bound_nonvacuous. Qed.
+Print Assumptions C18_nonvacuous_unfinished.
+Theorem C18_nonvacuous_finished : shape_ok ex_road3 /\ game_over ex_road3 = Some (true, GWhite) /\ (0 <= move ex_road3 <= max_terminal_ply)%Z /\
+  eval_default ex_road3 = Ok (-805307455)%Z.
+Proof. exact terminal_nonvacuous. Qed.
+Print Assumptions C18_nonvacuous_finished.
+
+(* NOT stated here (belongs to C05's search model): decided_means_terminal — a search value beyond the threshold implies a
+   finished game on the line searched; it follows from C18_heuristic_in_range for leaf values once the search value is shown
+   to be some leaf's evaluation (pvs_correct, C05). *)
